@@ -270,6 +270,20 @@ CLAIMED["C20"] = {
     "technique": _T + ": order/entropy/schedule taint classification of every unordered source to its consumer",
 }
 
+CLAIMED["C11"] = {
+    "text": "Decides, for all regression datasets at once, the clauses of 'least-squares estimators return a minimiser of their documented objective' that are visible in the shape of the code - necessary conditions, not optimality: "
+            "the intercept an elastic-net fit publishes depends on the records (at the optimum it is mean(y) - mean(x).w; an intercept taken from the targets alone is optimal only for centred features - violated by both elastic-net fits of the pinned tree, recorded as a known finding with the failing input); "
+            "the coordinate update clamps abs(t) - threshold at zero before the sign is restored, and the block update returns zeros below the threshold, so coefficients under the l1 threshold are exactly zero; "
+            "the soft threshold is l1_ratio*penalty*n and the denominator adds (1 - l1_ratio)*penalty*n in both descents, and both duality gaps build l1_reg / l2_reg from the same factors; "
+            "the descents stop on gap < tol*||y||^2 and return the gap that was compared; "
+            "OLS under fit_intercept appends a ones column along the feature axis, publishes its coefficient (the last one) as the intercept and removes it from the parameters, publishes a zero intercept otherwise; "
+            "Clone impls, builder methods, accessors and constructors of linfa-elasticnet and linfa-linear carry what was configured, no generic-float value is narrowed to f32 and stored, raw buffers are used by position only behind a layout test. "
+            "Not decided: optimality itself (KKT conditions, orthogonality of the OLS residual), non-negativity of the gap, convergence within the iteration budget.",
+    "design_ref": "DESIGN.md section 4, C11",
+    "note": "Trusted: rustc resolution/typeck, the fact dump. Claimed late in the build (section 5).",
+    "technique": _T + ": ingredient (data-dependence) analysis of the published intercept, role agreement of the two penalty terms across the descents and the duality gaps, canonical form of the soft threshold and of the stopping test, branch structure of the OLS fit",
+}
+
 CLAIMED["C15"] = {
     "text": "Decides, for all histories of batches at once, the clauses of 'incremental fitting replays to the same model as batch fitting / its recurrence' that are visible in the shape of the code - necessary conditions, not the statistics: "
             "naive Bayes `fit` is `fit_with` started from the empty model (None through the shared routine, dataset handed through), so a one-batch history and batch fitting are the same computation; "
@@ -304,7 +318,6 @@ CLAIMED["C17"] = {
 NOT_APPLICABLE = {
     "C05": "every clause equates a returned number with a textbook formula over unbounded inputs; no pairing/ordering/agreement structure is necessary for a wrong value, and a frozen-formula matcher would fire on any algebraic refactor (DESIGN.md section 5)",
     "C06": "kernel entry values, symmetry, PSD-ness, dense/sparse agreement and the merge-replay stop rule are relations between computed floating-point values; no sound static argument in reach bounds them (the hash-order cluster numbering in the same file is decided under C20)",
-    "C11": "KKT conditions and duality gaps are numerical statements about the solver's fixed point; nothing structural is necessary for them",
 }
 
 PENDING = ["C02", "C03", "C04", "C07", "C08", "C09", "C10", "C12", "C13", "C14", "C16", "C18", "C19", "C20"]
